@@ -32,7 +32,7 @@ Definition tsv_write_tag_row (strip_out_in_library : bool) (name : str) (a : att
         desc.
 
 (* Schema2DF._write_entry for a unit class / unit / modifier / value class row.  [fixed] = false is the
-   code before the repair of finding C05-F4, which ignored include_props; the repaired code writes a
+   code before fix commit 8fb8446 (finding C05-F4), which ignored include_props; the repaired code writes a
    stub (name only) when include_props is False. *)
 Definition tsv_write_entry_row (fixed strip_out_in_library include_props : bool) (name : str) (a : attrs)
            (desc : option str) : tsv_row :=
@@ -62,7 +62,7 @@ Definition unit_class_stub (a : attrs) : bool :=
   end.
 
 (* SchemaLoaderDF._create_entry without the schema object *)
-(* [fixed5] = true: with fix-F5 the name cell loses its outer white space first (_get_tag_name) *)
+(* [fixed5] = true: with fix commit 4b4f5c6 (C05-F5) the name cell loses its outer white space first (_get_tag_name) *)
 Definition tsv_read_row (fixed5 : bool) (r : tsv_row) : res (str * attrs * option str) :=
   let base_tag_name := if fixed5 then strip (r_name r) else r_name r in
   let element_name := if endswith s_dash_hash base_tag_name then [ch_hash] else base_tag_name in
